@@ -107,7 +107,27 @@ def _skel_ops(leaf: tuple[str, ...], inner_leaf: tuple[str, ...], budget: int, m
 
 
 def skeletons(sp: dict) -> Iterator[tuple]:
-    """(container, ((n_args, leaf op skeletons, terminator kind | None), ...))"""
+    """(container, ((n_args, leaf op skeletons, terminator kind | None), ...)); skeletons that already belong to the
+    space summarised by sp["exclude"] = (leaf kinds, max_ops, max_inner) (same container/args/terminators) are skipped,
+    so that the spaces of one run are disjoint"""
+    excl = sp.get("exclude")
+    for sk in _skeletons(sp):
+        if excl is not None:
+            leaf, max_ops, max_inner = excl
+            n = 0
+            inside = True
+            for (_na, ops, t) in sk[1]:
+                n += 1 if t is not None else 0
+                for (k, inner) in ops:
+                    n += 1 + len(inner or ())
+                    if k not in leaf or len(inner or ()) > max_inner:
+                        inside = False
+            if inside and n <= max_ops:
+                continue
+        yield sk
+
+
+def _skeletons(sp: dict) -> Iterator[tuple]:
     leaf, inner_leaf = tuple(sp["leaf"]), tuple(sp.get("inner_leaf", ()))
     max_inner = sp.get("max_inner", 0)
     if sp["container"] == "graph":
@@ -123,8 +143,6 @@ def skeletons(sp: dict) -> Iterator[tuple]:
         arg_opts = sp["entry_args"] if first else sp["other_args"]
         for ops, used in _skel_ops(leaf, inner_leaf, budget - nb, max_inner):   # keep 1 op per block for terminators
             for t in sp["terms"]:
-                if KINDS[t][3] > 0 and sp["max_blocks"] == 1 and not sp.get("self_branch", False):
-                    continue
                 for rest in blocks(nb - 1, budget - used - 1, False):
                     for na in arg_opts:
                         yield ((na, ops, t),) + rest
@@ -647,8 +665,8 @@ def spaces(quick: bool) -> list[dict]:
     out = [
         # every kind of the table, alone and in pairs
         dict(name="kinds-cfg", container="cfg", leaf=full, inner_leaf=inner, max_inner=1, max_blocks=1, max_ops=3,
-             entry_args=(1,), other_args=(0,), terms=("T0", "T1")),
-        dict(name="kinds-graph", container="graph", leaf=full, inner_leaf=inner, max_inner=1, max_ops=2),
+             entry_args=(1,), other_args=(0,), terms=("T0", "T1"), exclude=(eff, 4, 2)),
+        dict(name="kinds-graph", container="graph", leaf=full, inner_leaf=inner, max_inner=1, max_ops=2, exclude=(eff, 3, 2)),
         # effect classes x use chains x nested regions, one block
         dict(name="effects-cfg", container="cfg", leaf=eff, inner_leaf=inner, max_inner=2, max_blocks=1, max_ops=4,
              entry_args=(1,), other_args=(0,), terms=("T0", "T1")),
@@ -660,10 +678,10 @@ def spaces(quick: bool) -> list[dict]:
     if not quick:
         out += [
             dict(name="effects-cfg-5", container="cfg", leaf=eff9, inner_leaf=inner, max_inner=2, max_blocks=1, max_ops=5,
-                 entry_args=(1,), other_args=(0,), terms=("T0", "T1")),
-            dict(name="effects-graph-4", container="graph", leaf=eff9, inner_leaf=inner, max_inner=2, max_ops=4),
+                 entry_args=(1,), other_args=(0,), terms=("T0", "T1"), exclude=(eff, 4, 2)),
+            dict(name="effects-graph-4", container="graph", leaf=eff9, inner_leaf=inner, max_inner=2, max_ops=4, exclude=(eff, 3, 2)),
             dict(name="cfg-5", container="cfg", leaf=cfg, inner_leaf=(), max_inner=0, max_blocks=3, max_ops=5,
-                 entry_args=(0,), other_args=(0, 1), terms=TERMS, ordered_succ=False),
+                 entry_args=(0,), other_args=(0, 1), terms=TERMS, ordered_succ=False, exclude=(cfg, 4, 0)),
         ]
     return out
 
